@@ -79,8 +79,11 @@ def stepBasic (st : St) (op res : String) : St × List String :=
         (st, (if mr == .pass then "br:fq4.pass" else "br:fq4.listed") ::
              (if mr == o then [] else [s!"DIVERGE dom model={repr mr}"]) ++
              (if mon.2 then [] else [s!"FAIL C10 DHCPv4 client {mac} served {" ".intercalate r} but the file in force says {repr (listedFor m (st.mon.f4.getD []))}"]))
-  | ["fq6", mac, hasIANA, _], [r] =>
-    let m : Option (List Nat) := if mac == "-" then none else parseHex mac
+  | "fq6" :: mac :: hasIANA :: _, [["xm", xm], r] =>
+    -- the hardware address is the library's answer (`dhcpv6.ExtractMAC` on the whole datagram): the
+    -- relay's Client Link-Layer Address option, the EUI-64 peer address, or the one in the client id
+    let _ := mac
+    let m : Option (List Nat) := if xm == "-" then none else parseHex xm
     let h := hasIANA == "1"
     let mr := st.s.query6 h m
     let obs : Option FReply6 := match r with
@@ -92,6 +95,7 @@ def stepBasic (st : St) (op res : String) : St × List String :=
     | some o =>
       let mon := st.mon.step (.q6 h m o)
       (st, (if !h then "br:fq6.no-iana" else if m.isNone then "br:fq6.no-mac" else if mr == .pass then "br:fq6.pass" else "br:fq6.listed") ::
+           (if mac != "-" && m != parseHex mac then ["br:fq6.relay-reports-another-mac"] else []) ++
            (if mr == o then [] else [s!"DIVERGE dom model={repr mr}"]) ++
            (if mon.2 then [] else [s!"FAIL C10 DHCPv6 client {mac} served {" ".intercalate r} but the file in force says {repr (m.bind (fun mm => listedFor mm (st.mon.f6.getD [])))}"]))
   | _, _ => (st, ["DIVERGE drift unparsed-op"])
@@ -116,7 +120,7 @@ def step (st : St) (op res : String) : St × List String :=
         else
           let qop := if v6 then s!"fq6 {mac} 1 0" else s!"fq4 {mac}"
           let accepts (c : St) (r : String) : Bool :=
-            !((stepBasic c qop r).2.any (fun m => m.startsWith "DIVERGE" || m.startsWith "FAIL"))
+            !((stepBasic c qop (if v6 then s!"xm {mac} ; {r}" else r)).2.any (fun m => m.startsWith "DIVERGE" || m.startsWith "FAIL"))
           let answers := (obs.splitOn " | ").map (fun x => x.trimAscii.toString) |>.filter (· != "-")
           let during := answers.filter (fun a => !a.startsWith "after:")
           let after := (answers.filter (fun a => a.startsWith "after:")).map (fun a => (a.drop 6).toString)
